@@ -107,7 +107,10 @@ def _eval(node, path="root"):
         return res, (-av if op == "neg" else abs(av)), at + TOL_DEG, ax
     if op in ("mul", "rmul", "div"):
         ao, av, at, ax = _eval(node["a"], path + ".a")
-        k = node["k"]
+        k = S.as_kind(node["k"], node.get("knum", "float"))
+        if node.get("knum") == "npint" and float(node["k"]).is_integer():
+            import numpy as _np
+            k = _np.int64(int(node["k"]))
         xa = _dec(ao, "operand")
         want = xa * k if op == "mul" else (k * xa if op == "rmul" else xa / k)
         ref = av * k if op != "div" else av / k
@@ -119,9 +122,13 @@ def _eval(node, path="root"):
             raise Fail("%s of a %s object by %r raised %s: %s" % (op, _cls_of(ao), k, type(e).__name__, e),
                        observed={"operand": repr(ao)}, bucket="%s %s raises" % (op, _cls_of(ao)))
         what = "%s(%s)" % (op, _cls_of(ao))
-        if type(res) is not type(ao):
+        if type(res) is not type(ao) and not (op == "rmul" and _cls_of(ao) == "dec" and type(k).__module__ == "numpy"):
+            # (a numpy scalar on the left of a DECAngle - a float subclass - is multiplied by numpy itself: not the library's doing)
             raise Fail("%s: the result does not have the class of the angle operand" % what, expected=type(ao).__name__,
                        observed=type(res).__name__, bucket=what + " class")
+        if type(res) is not type(ao):
+            _close(float(res), want, TOL_DEG, what, {"operand": repr(ao), "k": repr(k)})
+            return ao.__class__(float(res)), ref, at * (abs(k) if op != "div" else 1.0 / abs(k)) + TOL_DEG, ax
         _close(_dec(res, what), want, TOL_DEG, what, {"operand": repr(ao), "k": k, "result": repr(res)})
         scale = abs(k) if op != "div" else 1.0 / abs(k)
         return res, ref, at * scale + TOL_DEG, ax
@@ -129,7 +136,7 @@ def _eval(node, path="root"):
         ao, av, at, ax = _eval(node["a"], path + ".a")
         if _cls_of(ao) not in ("dms", "ddm"):
             raise Discard()
-        m = node["m"]
+        m = S.as_kind(node["m"], node.get("knum", "float"))
         xa = _dec(ao, "operand")
         want = xa % m
         res = ao % m
@@ -217,7 +224,8 @@ def _wholeminute(draw):
 value_s = st.one_of(S.floats(-360.0, 360.0), S.floats(-360.0, 360.0), S.floats(-1.0, 1.0), st.sampled_from(_boundary_values()),
                     _wholeminute(), _wholeminute())
 leaf_s = st.builds(lambda c, v: {"op": "leaf", "cls": c, "v": v}, st.sampled_from(CLS), value_s)
-k_s = st.one_of(st.sampled_from([2, 3, 0.5, -1, -2.5, 7, 0.1, 10]), S.floats(0.01, 3.0), S.floats(-3.0, -0.01))
+k_s = st.one_of(st.sampled_from([2, 3, 0.5, -1, -2.5, 7, 0.1, 10, -2, -3]), S.floats(0.01, 3.0), S.floats(-3.0, -0.01))
+knum_s = st.sampled_from(["float"] * 5 + ["int", "np64", "npint"])
 
 
 def _extend(children):
@@ -226,11 +234,11 @@ def _extend(children):
         st.builds(lambda l, r: {"op": "sub", "l": l, "r": r}, children, children),
         st.builds(lambda a: {"op": "neg", "a": a}, children),
         st.builds(lambda a: {"op": "abs", "a": a}, children),
-        st.builds(lambda a, k: {"op": "mul", "a": a, "k": k}, children, k_s),
-        st.builds(lambda a, k: {"op": "rmul", "a": a, "k": k}, children, k_s),
-        st.builds(lambda a, k: {"op": "div", "a": a, "k": k}, children, k_s),
-        st.builds(lambda a, m: {"op": "mod", "a": a, "m": m}, children,
-                  st.one_of(st.sampled_from([360, 180, 90, 1, 360.0]), S.floats(0.1, 360.0))),
+        st.builds(lambda a, k, n: {"op": "mul", "a": a, "k": k, "knum": n}, children, k_s, knum_s),
+        st.builds(lambda a, k, n: {"op": "rmul", "a": a, "k": k, "knum": n}, children, k_s, knum_s),
+        st.builds(lambda a, k, n: {"op": "div", "a": a, "k": k, "knum": n}, children, k_s, knum_s),
+        st.builds(lambda a, m, n: {"op": "mod", "a": a, "m": m, "knum": n}, children,
+                  st.one_of(st.sampled_from([360, 180, 90, 1, 360.0, -90, -360.0]), S.floats(0.1, 360.0)), knum_s),
         st.builds(lambda a, n: {"op": "round", "a": a, "n": n}, children, st.integers(0, 6)),
     )
 
